@@ -279,6 +279,7 @@ def run(ck):
         d = gen(rng)
         if d["decl"] == "range" and k % 2 == 0 and len(d["states"]) >= 2:      # (a one-element range cannot be indexed: TypeError, observed)
             d["index_style"] = True          # equations address the states of 'y1:n' as y[0], y[1], ...
+            d = mg.shift_range(d, [1, 8, 1, 9][(k // 2) % 4])     # ... or of 'y8:12': the k-th declared component all the same
         route = c01.ROUTES[int(rng.integers(0, len(c01.ROUTES)))]
         inp = dict(definition=d, route=route, seed=k)
         try:
